@@ -267,6 +267,7 @@ FIXED = [
     {"world": "local", "init": "absent", "actors": ["create_A_fault", "load", "create_A_append"]},
     {"world": "local", "init": "absent", "lock_timeout": 0.05, "actors": ["create_A", "create_B_append_arg"]},
     {"world": "local", "init": "interrupted", "lock_timeout": 0.05, "actors": ["create_B", "create_A_append"]},
+    {"world": "local", "init": "absent", "depth2": True, "actors": ["create_A", "create_B_append_arg"]},
 ]
 
 
@@ -287,12 +288,19 @@ def run_enum(task):
         for order in (list(range(n)), list(reversed(range(n)))):
             for i in range(1, int(D * 1.15) + 2):
                 scheds.append({"order": order, "freeze": [[i, order[0]]]})
+    if sc.get("depth2"):
+        # two preemptions: the first creator is parked at decision i, the second runs k decisions (into its critical section), then the first
+        # runs to completion and the second finishes - 'both saw nothing there' windows that a single preemption cannot open
+        for order in (list(range(n)), list(reversed(range(n)))):
+            for i in range(1, min(int(D * 0.6), 60) + 1):
+                for k in range(1, 41):
+                    scheds.append({"order": order, "preempt": [[i, order[1]], [i + k, order[0]]]})
     for idx, schd in enumerate(scheds):
         if idx % task["nshard"] != task["shard"]:
             continue
         case = {"kind": "sched", "sc": sc, "schedule": schd, "seed": 1}
         o = run_case(case)
-        res.case(key=chash(case), nontrivial=o["nontrivial"], labels=sorted(set(o["labels"])) + ["enum-depth1"], sample=case if o["nontrivial"] and idx % 41 == 0 else None)
+        res.case(key=chash(case), nontrivial=o["nontrivial"], labels=sorted(set(o["labels"])) + ["enum-depth2" if len(schd.get("preempt", [])) == 2 else "enum-depth1"], sample=case if o["nontrivial"] and idx % 41 == 0 else None)
         for b, w in o["violations"]:
             res.violation(b, w + f" [scenario {sc}, schedule {schd}]", case)
     res.extra["depth1_enumeration_complete_for_fixed_scenarios"] = True
@@ -317,8 +325,9 @@ def pct_case(draw):
 def plan(tier, seed):
     tasks = []
     for sc in FIXED:
-        for s in range(2):
-            tasks.append({"kind": "enum", "sc": sc, "shard": s, "nshard": 2})
+        ns = 8 if sc.get("depth2") else 2
+        for s in range(ns):
+            tasks.append({"kind": "enum", "sc": sc, "shard": s, "nshard": ns})
     n = 150 if tier == "quick" else 3000
     for s in range(4 if tier == "quick" else 16):
         tasks.append({"kind": "pct", "n": n, "seed": seed * 1000 + s, "tier": tier})
